@@ -154,7 +154,7 @@ func ReadFromWebVTT(i io.Reader) (o *Subtitles, err error) {
 
 		switch {
 		// Comment
-		case strings.HasPrefix(line, "NOTE "):
+		case blockName != webvttBlockNameText && strings.HasPrefix(line, "NOTE "):
 			blockName = webvttBlockNameComment
 			comments = append(comments, strings.TrimPrefix(line, "NOTE "))
 		// Empty line
@@ -172,7 +172,7 @@ func ReadFromWebVTT(i io.Reader) (o *Subtitles, err error) {
 			sa.WebVTTTags = []WebVTTTag{}
 
 		// Region
-		case strings.HasPrefix(line, "Region: "):
+		case blockName != webvttBlockNameText && strings.HasPrefix(line, "Region: "):
 			// Add region styles
 			var r = &Region{InlineStyle: &StyleAttributes{}}
 			for _, part := range strings.Split(strings.TrimPrefix(line, "Region: "), " ") {
@@ -207,7 +207,7 @@ func ReadFromWebVTT(i io.Reader) (o *Subtitles, err error) {
 			// Add region
 			o.Regions[r.ID] = r
 		// Style
-		case strings.HasPrefix(line, "STYLE"):
+		case blockName != webvttBlockNameText && strings.HasPrefix(line, "STYLE"):
 			blockName = webvttBlockNameStyle
 
 			if _, ok := o.Styles[webvttDefaultStyleID]; !ok {
@@ -298,7 +298,7 @@ func ReadFromWebVTT(i io.Reader) (o *Subtitles, err error) {
 			// Append item
 			o.Items = append(o.Items, item)
 
-		case strings.HasPrefix(line, webvttTimestampMapHeader):
+		case blockName != webvttBlockNameText && strings.HasPrefix(line, webvttTimestampMapHeader):
 			if len(item.Lines) > 0 {
 				err = errors.New("astisub: found timestamp map after processing subtitle items")
 				return
